@@ -128,6 +128,7 @@ func (e *Engine) verifyFuncInstance(rep *FuncReport, fn *ssa.Function, fc *contr
 	}
 	r := e.newRun(name, fc.Mode, fc.Props)
 	r.safe = fc.Safe
+	var replayInfo *ReplayInfo
 	defer func() {
 		if x := recover(); x != nil {
 			msg := ""
@@ -137,6 +138,12 @@ func (e *Engine) verifyFuncInstance(rep *FuncReport, fn *ssa.Function, fc *contr
 				msg = fmt.Sprintf("internal error: %v\n%s", x, debug.Stack())
 			}
 			rep.Obligations = append(rep.Obligations, &Obligation{Name: name + "#subset", Kind: "subset", Props: fc.Props, Func: name, Err: msg})
+		}
+		for _, o := range r.obls {
+			o.Replay = replayInfo
+			if o.Kind != "vacuity" {
+				o.Vars = r.vars
+			}
 		}
 		rep.Obligations = append(rep.Obligations, r.obls...)
 		for _, m := range r.errs {
@@ -174,9 +181,12 @@ func (e *Engine) verifyFuncInstance(rep *FuncReport, fn *ssa.Function, fc *contr
 			}
 		}
 	}
+	freshParams := map[string]Value{}
+	bindTexts := map[string]string{}
 	bindParam := func(name string, t types.Type) Value {
 		if be, ok := binds[name]; ok {
 			tv := en.coerceTo(en.eval(be, t), t)
+			bindTexts[name] = types.ExprString(be)
 			return tv.V
 		}
 		v, as := r.freshValue(name, t)
@@ -186,9 +196,7 @@ func (e *Engine) verifyFuncInstance(rep *FuncReport, fn *ssa.Function, fc *contr
 		for _, ref := range refsOf(v) {
 			r.assume(c.True(), c.Op("<", nil, ref, alloc0))
 		}
-		for i, t := range r.flatten(v) {
-			r.vars = append(r.vars, NamedTerm{Name: fmt.Sprintf("%s/%d", name, i), T: t})
-		}
+		freshParams[name] = v
 		return v
 	}
 	for _, p := range fn.Params {
@@ -208,6 +216,7 @@ func (e *Engine) verifyFuncInstance(rep *FuncReport, fn *ssa.Function, fc *contr
 		fr.params[fv.Name()] = v
 		fr.paramT[fv.Name()] = fv.Type()
 	}
+	replayInfo = r.attachReplay(fn, fc, inst, pre, freshParams, bindTexts)
 	for _, cl := range fc.Requires {
 		if cl.Label == "bind" {
 			continue
